@@ -1,11 +1,11 @@
 #!/bin/bash
-# Negative self-test of the annotator tie (translate_annotators.py + Proofs/AnnotatorsTie.v).
+# Negative self-test of the annotator tie (translate_annotators.py + Proofs/AnnotatorsIous.v + Proofs/AnnotatorsTie.v).
 # Copies $VERIF_REPO/src (default /repo/src) to a scratch tree under /tmp, applies one change at a time, regenerates
 # the embedding into a scratch Coq root (logical name SC, so the real Gen/Annotators_gen.v is never touched) and
 # compiles a copy of the tie against it.  Expected: comment / docstring / message / local-rename changes still
 # compile ("pass"); semantic changes make a tie theorem fail ("fail") or are outside the idiom table ("unsupported").
 # Needs the .vo files AnnotatorsTie.v imports (Model/PyRt8.vo, Gen/Toggle_gen.vo, Proofs/ToggleTie.vo,
-# Proofs/CandGraphTie.vo, Proofs/EditFresh.vo, ...).  Works only under /tmp and removes the scratch tree at the end.
+# Proofs/CandGraphProofs.vo, Proofs/EditFresh.vo, ...; nothing generated from candidate_graph/*.py).  Works only under /tmp and removes the scratch tree at the end.
 #   usage: selftest_annotators.sh [substring of the case labels to run]
 set -u
 S=/tmp/annot_scratch.$$
@@ -27,12 +27,20 @@ run() {   # $1 = label, $2 = expectation: pass | fail | unsupported | reject (= 
   local got
   if grep -q "TRANSLATION FAILED" $S/coq/Gen/Annotators_gen.v; then got=unsupported
   else
+    sed -e 's/^From FT Require Gen\.Annotators_gen\.$/From SC Require Gen.Annotators_gen./' \
+        -e 's/^Module AG := FT\.Gen\.Annotators_gen\.$/Module AG := SC.Gen.Annotators_gen./' \
+        /verif/coq/Proofs/AnnotatorsIous.v > $S/coq/Proofs/AnnotatorsIous.v
     sed -e 's/ Gen\.Toggle_gen Gen\.Annotators_gen Proofs\.DictLemmas/ Gen.Toggle_gen Proofs.DictLemmas/' \
         -e 's/^Module AG := FT\.Gen\.Annotators_gen\.$/From SC Require Gen.Annotators_gen. Module AG := SC.Gen.Annotators_gen./' \
+        -e 's/ Proofs\.CandGraphProofs Proofs\.AnnotatorsIous\.$/ Proofs.CandGraphProofs. From SC Require Proofs.AnnotatorsIous./' \
+        -e 's/FT\.Proofs\.AnnotatorsIous\./SC.Proofs.AnnotatorsIous./g' \
         /verif/coq/Proofs/AnnotatorsTie.v > $S/coq/Proofs/AnnotatorsTie.v
     grep -q "Module AG := SC.Gen.Annotators_gen" $S/coq/Proofs/AnnotatorsTie.v && ! grep -q "Gen.Annotators_gen Proofs" $S/coq/Proofs/AnnotatorsTie.v \
-      || { echo "selftest: import lines of AnnotatorsTie.v not recognised"; exit 2; }
+      && grep -q "From SC Require Proofs.AnnotatorsIous" $S/coq/Proofs/AnnotatorsTie.v && ! grep -q "FT.Proofs.AnnotatorsIous" $S/coq/Proofs/AnnotatorsTie.v \
+      && grep -q "Module AG := SC.Gen.Annotators_gen" $S/coq/Proofs/AnnotatorsIous.v && ! grep -q "FT.Gen.Annotators_gen\|From FT Require Gen.Annotators_gen" $S/coq/Proofs/AnnotatorsIous.v \
+      || { echo "selftest: import lines of AnnotatorsTie.v / AnnotatorsIous.v not recognised"; exit 2; }
     ( cd $S/coq && timeout 600 coqc -Q /verif/coq FT -Q . SC Gen/Annotators_gen.v >$S/out.txt 2>&1 \
+        && timeout 900 coqc -Q /verif/coq FT -Q . SC Proofs/AnnotatorsIous.v >>$S/out.txt 2>&1 \
         && timeout 900 coqc -Q /verif/coq FT -Q . SC Proofs/AnnotatorsTie.v >>$S/out.txt 2>&1 ) && got=pass || got=fail
   fi
   local detail="" ok=no
